@@ -134,12 +134,29 @@ def winnow_facts(repo=None):
     if cands:
         txt = open(cands[0]).read()
         out["src"] = cands[0]
-        m = re.search(r"fn multispace0.*?take_while\(0\.\.,\s*\(([^)]*)\)\)", txt, re.S)
-        if m:
-            out["multispace"] = frozenset(eval("[" + m.group(1) + "]"))
-        m = re.search(r"fn space0.*?take_while\(0\.\.,\s*\(([^)]*)\)\)", txt, re.S)
-        if m:
-            out["space"] = frozenset(eval("[" + m.group(1) + "]"))
+        def body_of(name):
+            # the text of `pub fn NAME<..>(..) .. { .. }` up to the next item (never into a neighbouring function)
+            m0 = re.search(r"\npub fn %s<.*?\n\}\n" % name, txt, re.S)
+            return m0.group(0) if m0 else ""
+
+        def set_of(body):
+            m1 = re.search(r"take_while\(0\.\.,\s*\(([^)]*)\)\)", body)
+            if m1:
+                return frozenset(eval("[" + m1.group(1) + "]"))
+            m1 = re.search(r"take_while\(0\.\.,\s*AsChar::(\w+)\)", body)
+            if m1 and m1.group(1) in ("is_space",):
+                # AsChar::is_space for char / u8: `*self == ' ' || *self == '\t'` (read from the stream module of the same version)
+                st_ = glob.glob(os.path.join(os.path.dirname(os.path.dirname(cands[0])), "stream", "mod.rs"))
+                stxt = open(st_[0]).read() if st_ else ""
+                m2 = re.search(r"impl AsChar for char \{.*?fn is_space\(self\) -> bool \{\s*(.*?)\s*\}", stxt, re.S)
+                if m2:
+                    chars = re.findall(r"'(\\?.)'", m2.group(1))
+                    if chars and re.fullmatch(r"(?:\s*\*?self\s*==\s*'\\?.'\s*\|\|)*\s*\*?self\s*==\s*'\\?.'\s*", m2.group(1)):
+                        return frozenset(eval("'%s'" % c_) for c_ in chars)
+            return None
+
+        out["multispace"] = set_of(body_of("multispace0"))
+        out["space"] = set_of(body_of("space0"))
     _WINNOW[ver] = out
     return out
 
